@@ -69,6 +69,12 @@ ClauseProp ==
     alloc_enc      |-> {"C18"},
     par_norace     |-> {"C08"},
     par_nocrash    |-> {"C08"},
+    walk_aligned   |-> {"C06"},
+    walk_disjoint  |-> {"C06"},
+    walk_noinput   |-> {"C06", "C14"},
+    nocopy_exact   |-> {"C14"},
+    nocopy_follows |-> {"C14"},
+    recheck_stable |-> {"C06"},
     rt_ok          |-> {"C01"},
     rt_n           |-> {"C01"},
     rt_val         |-> {"C01"} ]
@@ -199,6 +205,37 @@ JAllocs(line) ==
   [ cls |-> "Allocs>" \o obs.out,
     fail |-> IF obs.out # "ok" THEN {"alloc_ok"}
              ELSE If(obs.size_mallocs < line.calls, "alloc_size") \cup If(obs.enc_mallocs < line.calls, "alloc_enc") ]
+
+\* ---- memory ownership of decoded objects (C06, C14) ----------------------------------
+\* line.obs.regions: the pieces of memory the kept objects refer to, sorted by address, with
+\* rank-compressed extents [lo, hi), misalignment, and for pieces inside an input buffer the
+\* offset from its start.  objin: step -> [ty, in] of the decodes that produced the objects.
+JWalk(line, objin) ==
+  LET rs == line.obs.regions
+      ins == line.obs.inputs
+      real == {i \in 1..Len(rs) : rs[i].lo < rs[i].hi} IN
+  [ cls |-> "Walk>" \o line.obs.out,
+    fail |->
+      If(\A i \in 1..Len(rs) : rs[i].mis = 0, "walk_aligned") \cup
+      If(\A i, j \in real : i < j => rs[i].hi <= rs[j].lo, "walk_disjoint") \cup
+      If(\A i \in real : rs[i].nocopy \/ \A k \in 1..Len(ins) : rs[i].hi <= ins[k].lo \/ rs[i].lo >= ins[k].hi, "walk_noinput") \cup
+      If(\A i \in 1..Len(rs) :
+            rs[i].nocopy =>
+              IF rs[i].len = 0 THEN rs[i].off < 0          \* a zero-length value does not reference the buffer
+              ELSE /\ rs[i].cap = rs[i].len
+                   /\ Len(rs[i].keys) > 0 /\ ToString(rs[i].obj) \in DOMAIN objin
+                   /\ LET o == objin[ToString(rs[i].obj)]
+                          lc == Locate(o.ty, o.in, 1, rs[i].keys) IN
+                      lc.ok /\ lc.off = rs[i].off /\ lc.len = rs[i].len,
+         "nocopy_exact") ]
+
+JRecheck(line) ==
+  [ cls |-> "Recheck/" \o line.after \o ">" \o line.obs.out,
+    fail |-> If(line.obs.snap = line.obs.now, "recheck_stable") \cup
+             (IF line.after = "overwrite"
+              THEN If(\A i \in 1..Len(line.obs.nocopy) : \A j \in 1..Len(line.obs.nocopy[i].bytes) : line.obs.nocopy[i].bytes[j] = 255,
+                      "nocopy_follows")
+              ELSE {}) ]
 
 \* ---- concurrent sections (C08) --------------------------------------------------------
 \* The calls made inside a concurrent section are ordinary lines, judged like sequential calls
